@@ -307,6 +307,8 @@ pub struct RepoSpec {
     /// add unknown members at the top level of the signed portion of timestamp, snapshot,
     /// targets and every delegated role
     pub extra_members: bool,
+    /// keys listed in the top-level `delegations.keys` table although no delegated role names them
+    pub spare_deleg_keys: Vec<usize>,
 }
 
 /// Unknown top-level members a role's signed portion carries when `extra_members` is set.
@@ -338,6 +340,7 @@ impl Default for RepoSpec {
             pin_targets: Pin { hash: true, length: true },
             style: Style::Pretty,
             extra_members: false,
+            spare_deleg_keys: vec![],
         }
     }
 }
@@ -446,6 +449,11 @@ pub fn top_delegations(spec: &RepoSpec) -> Option<J> {
             if !tk.contains(k) {
                 tk.push(*k);
             }
+        }
+    }
+    for k in &spec.spare_deleg_keys {
+        if !tk.contains(k) {
+            tk.push(*k);
         }
     }
     Some(delegations(
